@@ -1,0 +1,75 @@
+//! `connection/paths.rs::PathResponses` (queue of PATH_RESPONSE frames owed to peers, one per remote address).
+//!
+//! Requests (first token `pathresp` already removed); a remote address is a number r < 65536
+//! (10.0.<r/256>.<r%256>:4433):
+//!   new | push <packet> <token> <remote> | pop_off <remote> | pop_on <remote> | empty
+//! State suffix: `[packet:token:remote,…]`
+use super::{num, Comp, BAD};
+use crate::connection::paths::PathResponses;
+use std::net::SocketAddr;
+
+pub(super) struct PathRespC(PathResponses);
+
+fn addr(s: &str) -> Option<SocketAddr> {
+    let r = num(s)?;
+    (r < 65536).then(|| SocketAddr::from(([10, 0, (r >> 8) as u8, r as u8], 4433)))
+}
+
+fn unaddr(a: &SocketAddr) -> u64 {
+    match a {
+        SocketAddr::V4(a) => {
+            let o = a.ip().octets();
+            (o[2] as u64) << 8 | o[3] as u64
+        }
+        _ => u64::MAX,
+    }
+}
+
+impl PathRespC {
+    pub(super) fn new() -> Self {
+        Self(PathResponses::default())
+    }
+    fn state(&self) -> String {
+        let v: Vec<String> = self
+            .0
+            .verif_state()
+            .iter()
+            .map(|(p, t, r)| format!("{p}:{t}:{}", unaddr(r)))
+            .collect();
+        format!("[{}]", v.join(","))
+    }
+}
+
+impl Comp for PathRespC {
+    fn exec(&mut self, w: &[&str]) -> String {
+        match w {
+            ["new"] => {
+                self.0 = PathResponses::default();
+                format!("ok {}", self.state())
+            }
+            ["push", packet, token, remote] => {
+                let (Some(packet), Some(token), Some(remote)) = (num(packet), num(token), addr(remote)) else {
+                    return BAD.into();
+                };
+                self.0.push(packet, token, remote);
+                format!("ok {}", self.state())
+            }
+            ["pop_off", remote] => {
+                let Some(remote) = addr(remote) else { return BAD.into() };
+                match self.0.pop_off_path(remote) {
+                    None => format!("none {}", self.state()),
+                    Some((token, r)) => format!("ok {token} {} {}", unaddr(&r), self.state()),
+                }
+            }
+            ["pop_on", remote] => {
+                let Some(remote) = addr(remote) else { return BAD.into() };
+                match self.0.pop_on_path(remote) {
+                    None => format!("none {}", self.state()),
+                    Some(token) => format!("ok {token} {}", self.state()),
+                }
+            }
+            ["empty"] => format!("{}", self.0.is_empty()),
+            _ => BAD.into(),
+        }
+    }
+}
